@@ -295,3 +295,74 @@ func init() {
 	register(&Scenario{Prop: "C20", Name: "c20/transport-server", Quick: []Bound{{1, 0}}, Thorough: []Bound{{2, 0}}, Body: c20Transport, MaxSteps: 100000})
 	register(&Scenario{Prop: "C20", Name: "c20/client", Quick: []Bound{{1, 0}}, Thorough: []Bound{{2, 0}}, Body: c20Client, MaxSteps: 100000})
 }
+
+// one Server announced on up to three addresses over its life: listeners are started, stop by
+// themselves (a fatal Accept error: the environment closes the listening socket) and the Server is
+// closed and used again, in every order of five such events; in the end Server.Close makes every
+// Listen call return and nothing is left behind.  The order in which a returning Listen and the
+// next Listen touch the Server's list of listeners is the explorer's (d = 1).
+func c20ListenCycles(x *X) {
+	n := newNet()
+	w := newWorld()
+	so := srvOpts{bufSize: 64}
+	srv := newServer(w, so)
+	type lis struct {
+		addr string
+		ret  bool
+	}
+	var all []*lis
+	running := map[string]*lis{}
+	addrs := []string{"A", "B", "C"}
+	var log []string
+	settle := x.Choose(2) == 1 // every event is followed by a quiet period (otherwise only the last one)
+	for i := 0; i < 5; i++ {
+		ev := x.Choose(7)
+		switch {
+		case ev < 3: // Listen on A / B / C (if it is not being listened on)
+			a := addrs[ev]
+			if l := running[a]; l != nil && !l.ret {
+				continue
+			}
+			l := &lis{addr: a}
+			all = append(all, l)
+			running[a] = l
+			vs.GoLib("Listen("+a+")", func() {
+				srv.ListenWithOptions(a, so.options(n, 0))
+				l.ret = true
+			})
+			vs.Block("wait for the listener "+a, func() bool { fl := n.lis[a]; return l.ret || fl != nil && !fl.closed && fl.accepting })
+			log = append(log, "listen("+a+")")
+		case ev < 6: // the listening socket of A / B / C fails
+			a := addrs[ev-3]
+			if fl := n.lis[a]; fl != nil && !fl.closed {
+				fl.closed = true
+				log = append(log, "fail("+a+")")
+			}
+		default:
+			srv.Close()
+			log = append(log, "close")
+		}
+		if settle {
+			vs.Quiesce()
+		}
+	}
+	vs.Quiesce()
+	srv.Close()
+	vs.Quiesce()
+	for _, l := range all {
+		if !l.ret {
+			x.Fail("C20/listen-did-not-return", "after the events %v and a final Server.Close, Listen(%q) has not returned", log, l.addr)
+		}
+	}
+	for _, a := range addrs {
+		if fl := n.lis[a]; fl != nil && !fl.closed {
+			x.Fail("C20/listener-left-open", "after the events %v and a final Server.Close the listening socket of %q is still open", log, a)
+		}
+	}
+	census(x, nil, fmt.Sprintf("server listen cycles %v", log))
+	x.Outcome("settle=%v %v", settle, log)
+}
+
+func init() {
+	register(&Scenario{Prop: "C20", Name: "c20/server-listen-cycles", Quick: []Bound{{0, 0}, {1, 0}}, Thorough: []Bound{{2, 0}}, Body: c20ListenCycles, MaxSteps: 100000, BudgetQ: 25, BudgetT: 200})
+}
